@@ -46,7 +46,8 @@ def broken(a):
     return [][a]
 '''
 
-VALUES = ['0', '1', '-1', '5', '3', '5.0', '5.0004', '5.002', '4.9995', '0.30000000000000004', '0.3', 'True', 'False', 'None',
+VALUES = ['0', '1', '-1', '5', '3', '5.0', '5.0004', '5.002', '4.9995', '50000000.0', '50000000.04', '50000000', '3000000001.5', '3000000000',
+          '[1, 50000000.0]', '[1, 50000000.04]', '1e-05', '0.0009', '0.30000000000000004', '0.3', 'True', 'False', 'None',
           "'a'", "'A'", "'a.'", "'Hello, World!'", "'hello world'", "'hello  world'", "'abc'", "'b'", "''", "'5'",
           '[]', '[1, 2]', '[1, 2.0004]', "['a', 'B']", "['A', 'b']", '[[1], [2]]', '[[1], [2.0005]]', '(1, 2)', "(1, 'a')", '()',
           "{'a': 1}", "{'a': 1.0004}", '{}', '{1, 2}', 'set()', "{'k': [1, {'z': 2.0}]}", "{'k': [1, {'z': 2.0003}]}",
@@ -572,7 +573,7 @@ def table(tier):
 
 ENUMS = {'table': table}
 
-_scalars = st.one_of(st.integers(-5, 5), st.booleans(), st.none(), st.sampled_from([5.0, 5.0004, 5.002, 0.1, 2.5, -1.5]),
+_scalars = st.one_of(st.integers(-5, 5), st.booleans(), st.none(), st.sampled_from([5.0, 5.0004, 5.002, 0.1, 2.5, -1.5, 5e8, 5e8 + 0.04, 1234567890.25]),
                      st.sampled_from(['a', 'A', 'a.', 'hello world', 'Hello, World!', 'b', '']))
 _nested = st.recursive(_scalars, lambda ch: st.one_of(st.lists(ch, max_size=3), st.lists(ch, max_size=3).map(tuple),
                                                       st.dictionaries(st.sampled_from(['a', 'b', 'k']), ch, max_size=3)), max_leaves=6)
@@ -587,9 +588,9 @@ def perturbed_pair(draw):
         if isinstance(v, bool) or v is None:
             return v
         if isinstance(v, int):
-            return draw(st.sampled_from([v, v + 1, float(v), v + 0.0004, v + 0.002]))
+            return draw(st.sampled_from([v, v + 1, float(v), v + 0.0004, v + 0.002, v * 10 ** 8 + 0.04, v * 10 ** 8]))
         if isinstance(v, float):
-            return draw(st.sampled_from([v, v + 0.0004, v - 0.0004, v + 0.002, int(v)]))
+            return draw(st.sampled_from([v, v + 0.0004, v - 0.0004, v + 0.002, int(v), v * 1e9, v * 1e9 + 0.5]))
         if isinstance(v, str):
             return draw(st.sampled_from([v, v.upper(), v + '!', v.replace(' ', ', '), v + 'x']))
         if isinstance(v, list):
